@@ -3,11 +3,13 @@ package props
 import (
 	"encoding/json"
 	"fmt"
-
-	"github.com/go-openapi/spec"
+	"regexp"
 	"strings"
 
 	"verif/harness/gen"
+	. "verif/harness/jsonx"
+
+	"github.com/go-openapi/spec"
 )
 
 // applyKnownSwitches narrows the generator by construction for every open known finding (its
@@ -37,6 +39,8 @@ func applyKnownSwitches(cfg *gen.BundleCfg) {
 				cfg.NoSharedSchemaPtrs = true
 			case s == "KeepNamesPlainOnly":
 				cfg.KeepNamesPlainOnly = true
+			case s == "NoOAIGenNamedAliases":
+				cfg.NoOAIGenNamedAliases = true
 			}
 		}
 	}
@@ -59,6 +63,22 @@ func init() {
 		}
 		return strings.Contains(fail, "no key") || strings.Contains(fail, "JSON pointer error") || strings.Contains(fail, "dangling")
 	}
+	// A definition of the input whose name contains "OAIGen" and whose body is a bare $ref to a remote
+	// definition is mistaken for a generated conflict-resolution definition (substring test on the
+	// holder key) and merged away by the de-duplication step.
+	Classifiers["oaigen-named-user-alias"] = func(prop string, c interface{}, fail string) bool {
+		fc, ok := c.(*gen.FlattenCase)
+		if !ok {
+			return false
+		}
+		m := oaigenVanished.FindStringSubmatch(fail)
+		if m == nil {
+			return false
+		}
+		body := Obj(Obj(fc.Root["definitions"])[m[1]])
+		ref, isAlias := body["$ref"].(string)
+		return isAlias && len(body) == 1 && !strings.HasPrefix(ref, "#")
+	}
 	// spec.ExpandSpec itself (go-openapi/spec, outside this repository) fails on the bundle: a remote
 	// reference cycle reached from documents in two different directories is rebased twice.
 	Classifiers["spec-expandspec-fails"] = func(prop string, c interface{}, fail string) bool {
@@ -69,6 +89,8 @@ func init() {
 		return specExpandFails(fc)
 	}
 }
+
+var oaigenVanished = regexp.MustCompile(`definition "([^"]*OAIGen[^"]*)" (vanished|changed meaning)`)
 
 // specExpandFails runs go-openapi/spec's own full expansion on the bundle, in this process.
 func specExpandFails(c *gen.FlattenCase) bool {
